@@ -45,7 +45,9 @@ def ll_login(w, sc):
     vh = 1
     if sc.get("reimport"):
         # values flow from the accessors of the first record into the constructor
-        lines.append("ver_db\tid=%d\tinto=2\tu=$%d.user\tv=$%d.v\tsalt=$%d.salt" % (nid("db"), ids["ver"], ids["ver"], ids["ver"]))
+        # the name is exported either through the accessor or through Display of the credential object
+        ufield = "user_display" if sc.get("export_via_display") else "user"
+        lines.append("ver_db\tid=%d\tinto=2\tu=$%d.%s\tv=$%d.v\tsalt=$%d.salt" % (nid("db"), ids["ver"], ufield, ids["ver"], ids["ver"]))
         vh = 2
     if sc.get("b"):
         lines.append(fmt("rng_script", chunks=sc["b"]))
